@@ -24,6 +24,7 @@ func ProfileFor(prop string) *Profile {
 		w["putcond"], w["updcond"], w["delcond"] = 0.4, 0.4, 0.4
 		w["bad"], w["idxtype"], w["toggle"], w["scan"] = 0.3, 0.2, 0.1, 0.3
 		w["idxdrop"], w["idxcreate"] = 0.15, 0.15
+		p.LateFailBias = 0.25
 	case "C02":
 		p.MaxIdx = 3
 		p.AltKeyStyles, p.AltKeyProb = []string{"numeric"}, 0.3
@@ -51,7 +52,8 @@ func ProfileFor(prop string) *Profile {
 		p.MaxIdx = 2
 		w["put"], w["update"], w["delete"], w["get"] = 3, 1, 0.7, 0.5
 		w["putcond"], w["updcond"], w["delcond"] = 3, 3, 3
-		w["idxtype"], w["bad"] = 0.1, 0.1
+		w["idxtype"], w["bad"] = 0.3, 0.6
+		p.LateFailBias = 0.5
 	case "C08":
 		p.MinIdx, p.MaxIdx = 0, 3
 		p.MistypedAttrs = true
@@ -121,7 +123,7 @@ func ProfileFor(prop string) *Profile {
 		return nil
 	}
 	switch prop {
-	case "C01", "C02", "C03", "C04", "C19":
+	case "C01", "C02", "C03", "C04", "C05", "C13", "C19":
 		p.BigTables = true
 	}
 	switch prop {
